@@ -332,6 +332,17 @@ def genuine_failures(ctx, pq, rng, doc):
     d5 = copy.deepcopy(doc)
     d5["ins"][k] = {"t": "Phaseshifter", "m": (ins[k]["m"] or [0])[:1], "p": {"phi": "1 / (x[0] - x[0])"}}
     variants.append(("parameter-expression-raises", d5))
+    # two outcome-dependent parameters on one instruction, the later one failing on some branch
+    if any(x["t"].endswith("Measurement") for x in ins[:k]):
+        d6 = copy.deepcopy(doc)
+        m2 = (ins[k]["m"] or [0, 1])[:2]
+        if len(m2) == 2:
+            d6["ins"][k] = {"t": "Beamsplitter", "m": m2, "p": {"theta": "0.1 + x[0] * 0.2", "phi": "1 / (x[0] - x[0])"}}
+            variants.append(("second-parameter-expression-raises", d6))
+        d7 = copy.deepcopy(doc)
+        d7["ins"][k] = {"t": "Squeezing" if doc["sim"] in ("purefock", "gaussian") else "Phaseshifter", "m": (ins[k]["m"] or [0])[:1],
+                        "p": ({"r": {"__call__": "half_first"}, "phi": "x[x[0] + 7]"} if doc["sim"] in ("purefock", "gaussian") else {"phi": "x[x[0] + 7]"})}
+        variants.append(("later-parameter-raises-after-callable", d7))
     for name, dv in variants:
         try:
             subj = Subject(pq, dv)
